@@ -168,6 +168,33 @@ def main(argv):
             r = run_property(pid, tier, seed)
             rc = max(rc, r)
         return rc
+    if args[0] == 'replay':
+        # re-run the property of a violation file and show the recorded rule instances next to the fresh ones
+        d = json.load(open(args[1]))
+        print('recorded violations of %s:' % d['property'])
+        for v in d.get('violations', []):
+            print('  %s: [%s] %s' % (v['site'], v['rule'], v['message']))
+        print('re-running the property on the current tree:')
+        return run_property(d['property'], tier, seed)
+    if args[0] == 'selftest':
+        import subprocess
+        rc = 0
+        for kind, tool in (('seeded', 'seedtest.py'), ('refactors', 'refactortest.py')):
+            base = os.path.join(VERIF, kind)
+            for name in sorted(os.listdir(base)) if os.path.isdir(base) else []:
+                if kind == 'seeded':
+                    meta = json.load(open(os.path.join(base, name, 'meta.json')))
+                    r = subprocess.run([sys.executable, os.path.join(VERIF, 'tools', tool), os.path.join(base, name), name, meta['breaks_property'], meta['breaks_property']],
+                                       capture_output=True, text=True)
+                    ok = ("fired=['%s']" % meta['breaks_property']) in r.stdout or meta['breaks_property'] in r.stdout.split('fired=')[-1].split(']')[0]
+                    if not meta.get('target_check_fires', True):
+                        ok = True
+                else:
+                    r = subprocess.run([sys.executable, os.path.join(VERIF, 'tools', tool), name], capture_output=True, text=True)
+                    ok = 'alarms {}' in r.stdout
+                print('%s %s: %s' % (kind, name, 'ok' if ok else 'UNEXPECTED ' + r.stdout.strip()[-300:]))
+                rc = rc or (0 if ok else 1)
+        return rc
     if args[0] == 'warm':
         m = Model()
         m.machines()
